@@ -10,13 +10,19 @@
   by Range, each once; (3) the SEQ engine drives the table through the cache with InitialCapacity 1..1000.
   Theorems: finite-map laws of the specification; SWAR facts over the regenerated Gen.Swar: the hash fragment stored in
   the meta word is always < 0x80, so an occupied slot never looks empty and the empty marker never matches a key.
-  PARTIAL: no mechanised model of the bucket chains, the SWAR search and the cooperative resize; C15 is decided by (1)-(3).
+  All interleavings (Conc.Resize: one key, unboundedly many writers, any number of successive resizes): the handshake between
+  Compute (lock the root bucket, then check the resizing flag, then check that the table is still current, then store) and
+  resize (raise the flag, copy each bucket under its lock, publish, clear the flag) never loses a completed write — the value
+  the specification holds is the value in the current table in every reachable state; the copy of a bucket waits for the
+  writer inside it; at most one writer is inside a bucket.
+  PARTIAL: bucket chains and the SWAR search are not modelled (skeletons, CONC-lin, CONC-resize); the model is per key.
 -/
 import OtterVerif.Proofs.MapLemmas
 import OtterVerif.Gen.Swar
 import OtterVerif.Gen.Skeleton
 import OtterVerif.Conc.TableSkeleton
 import OtterVerif.Lin.Check
+import OtterVerif.Conc.Resize
 
 namespace OtterVerif.Props.C15
 open OtterVerif OtterVerif.Spec
@@ -70,6 +76,40 @@ theorem skeleton_Map_copyBucketWithDestLock : Gen.Skeleton.Map_copyBucketWithDes
 theorem skeleton_Map_newerTableExists : Gen.Skeleton.Map_newerTableExists = Conc.TableSkeleton.Map_newerTableExists := by decide
 
 theorem skeleton_Map_resizeInProgress : Gen.Skeleton.Map_resizeInProgress = Conc.TableSkeleton.Map_resizeInProgress := by decide
+
+/-! ### The resize handshake, all interleavings (Conc.Resize) -/
+
+/-- nothing is lost across resizes: in every reachable state the current table holds, for the key, exactly the value of the
+    last completed write (the specification's value) — whatever the interleaving of writers with any number of resizes -/
+theorem c15_no_lost_write {s : Conc.Resize.St} (h : Conc.Resize.Reach s) : s.abs = s.content s.cur :=
+  (Conc.Resize.reach_inv h).val
+
+/-- the resizer copies a bucket only when no writer is inside it, and no writer enters it afterwards until the new table is
+    in use: while the copy exists (or the new table is published with the flag still up) nobody is past the flag check -/
+theorem c15_copy_excludes_writers {s : Conc.Resize.St} (h : Conc.Resize.Reach s)
+    (hc : s.copied = true ∨ s.published = true) : s.c1 s.cur = 0 ∧ s.passed s.cur = 0 :=
+  ⟨((Conc.Resize.reach_inv h).quiet hc).1, ((Conc.Resize.reach_inv h).quiet hc).2.1⟩
+
+/-- an update function is applied under mutual exclusion: at most one writer is inside a bucket's critical section -/
+theorem c15_one_writer_per_bucket {s : Conc.Resize.St} (h : Conc.Resize.Reach s) (g : Nat) :
+    s.locked g + s.c1 g + s.passed g ≤ 1 := by
+  have := (Conc.Resize.reach_inv h).own g
+  have hb := Conc.Resize.ite_bool_le (s.lock g)
+  omega
+
+/-- a writer that stores does so into the current table -/
+theorem c15_store_goes_to_current_table {s : Conc.Resize.St} (h : Conc.Resize.Reach s) (g : Nat) (hp : 0 < s.passed g) :
+    g = s.cur :=
+  (Conc.Resize.reach_inv h).pc g hp
+
+/-- non-vacuity: a write, a complete resize, and a write into the new table -/
+theorem c15_resize_example : ∃ s, Conc.Resize.Reach s ∧ s.cur = 1 ∧ s.abs = some 7 ∧ s.content 1 = some 7 := by
+  open Conc.Resize in
+  refine ⟨_, Reach.step (Reach.step (Reach.step (Reach.step (Reach.step (Reach.step (Reach.step (Reach.step Reach.init
+    (Step.wLock _ 0 (Nat.le_refl _) rfl)) (Step.wCheck1 _ 0 (by simp [upd]) rfl)) (Step.wCheck2 _ 0 (by simp [upd]) rfl))
+    (Step.wApply _ 0 (some 7) (by simp [upd]))) (Step.rStart _ rfl)) (Step.rCopy _ rfl rfl rfl (by simp [upd])))
+    (Step.rPublish _ rfl rfl rfl)) (Step.rDone _ rfl rfl), rfl, rfl, ?_⟩
+  simp [upd]
 
 /-! ### Non-vacuity -/
 example : (Gen.Swar.h2 0xffffffffffffffff).toNat = 127 := by decide
